@@ -16,7 +16,7 @@ from checks.c10_conv import ConvHarness
 
 PROPERTY = "C10"
 LEVEL = "model_checking"
-RULE = ("AXIBurst2Beat: for every legal burst (FIXED/INCR/WRAP x size 0..3 [thorough 0..7] x len 0..16,31,63,255 [thorough 0..255; "
+RULE = ("AXIBurst2Beat: for every legal burst (FIXED/INCR/WRAP x size 0..3 [thorough 0..7] x len 0..16,31,63,255 [thorough 0..255 for size <= 3; "
         "WRAP 1,3,7,15] x a start-address grid with every alignment class, page-end and address-space-end placements, no 4 KiB "
         "crossing) BFS to closure of (real FHDL x held request x free ax_beat.ready), all bursts of a group started from the common "
         "idle state (= back-to-back) with idle garbage on the request lines; every beat compared with the AMBA equations at "
@@ -52,16 +52,18 @@ def _b2b():
         for size in range(0, 8):
             tier = "quick" if size <= 3 else "thorough"
             bus = {0: "8..64", 1: "16..64", 2: "32/64", 3: "64"}.get(size, str(8 << size))
+            # sizes 4..7 (128..1024-bit buses, thorough only) have up to 128 alignment classes: they keep the quick length menu
             if bt == ref.WRAP:
                 B2B[f"AXIBurst2Beat[WRAP,size={size},bus={bus}bit]"] = (tier, dict(burst=bt, size=size, lens_q=[1, 3, 7, 15], lens_t=[1, 3, 7, 15]))
             elif bt == ref.INCR:
                 mx = min(255, 4096 // (1 << size) - 1)
-                lq = [l for l in QUICK_LENS if l <= mx]
-                B2B[f"AXIBurst2Beat[INCR,size={size},bus={bus}bit]"] = (tier, dict(burst=bt, size=size, lens_q=lq, lens_t=list(range(0, mx + 1))))
+                lq = sorted({l for l in QUICK_LENS + [mx] if l <= mx})
+                B2B[f"AXIBurst2Beat[INCR,size={size},bus={bus}bit]"] = (
+                    tier, dict(burst=bt, size=size, lens_q=lq, lens_t=list(range(0, mx + 1)) if size <= 3 else lq))
             else:
                 B2B[f"AXIBurst2Beat[FIXED,len<=15,size={size},bus={bus}bit]"] = (tier, dict(burst=bt, size=size, lens_q=list(range(16)), lens_t=list(range(16))))
                 B2B[f"AXIBurst2Beat[FIXED,len>15,size={size},bus={bus}bit]"] = (
-                    tier, dict(burst=bt, size=size, lens_q=[16, 31, 63, 255], lens_t=list(range(16, 256))))
+                    tier, dict(burst=bt, size=size, lens_q=[16, 31, 63, 255], lens_t=list(range(16, 256)) if size <= 3 else [16, 31, 63, 255]))
     # the capability sets other than the default (a burst type outside the set must not be requested)
     B2B["AXIBurst2Beat[INCR,size=2,capabilities=FIXED+INCR]"] = ("quick", dict(burst=ref.INCR, size=2, caps=(0, 1), lens_q=QUICK_LENS, lens_t=list(range(256))))
     B2B["AXIBurst2Beat[FIXED,len<=15,size=2,capabilities=FIXED+INCR]"] = ("quick", dict(burst=ref.FIXED, size=2, caps=(0, 1), lens_q=list(range(16)), lens_t=list(range(16))))
